@@ -15,6 +15,16 @@ CLAIMED = {
   text="hand_type() is called on every seven-card set and its name compared with the category of the true best five-card hand; all 4,824 reachable indexes and every category boundary are therefore hit.",
   note="Trusts M-rank's category assignment (self-checked counts). Indexes unreachable from seven cards are outside the property.",
   ref="4/C07"),
+ "C02": dict(
+  technique="explicit-state exploration of the real iterator: every next() transition for every configuration of a colliding alphabet, compared per position as a multiset with a reference enumerator of legal deals",
+  text="The real FlopExhaustiveEvaluator iterator is driven from into_iter() to None for every range configuration of a small alphabet built so that combos collide with each other, with the flop and with both ends of the deck (all subsets for 1 player, all subset pairs for 2, triples for 3, up to 10 players, every range size across the u8 boundaries, all 22,100 flops in thorough); the complete yield is compared with the model's legal deals: nothing missing, extra or twice, correct board, players and probability.",
+  note="Trusts M-deals (direct transcription of the property). Ranges are drawn from the structured alphabet and from prefixes/suffixes of the 1326 combos, not from all 2^1326 subsets.",
+  ref="4/C02"),
+ "C08": dict(
+  technique="exhaustive exploration of termination outcomes over a family of configurations with iterated deviation bound (length of the run of consecutive blocked deals), each run as a child process on a 2 MiB stack in the stock dev and release profiles",
+  text="The observable of the property (returns normally / panics / exhausts the stack / does not terminate) is taken from the exit status of a child process that drains the real evaluator on a 2 MiB thread, for every configuration of the family and for both build profiles.",
+  note="Trusts the OS exit status and the 2 MiB stack size given to the thread. The family is structured (blocked runs up to 1.18 M deals, sizes around u8 boundaries, empty ranges, realistic notation), not all inputs.",
+  ref="4/C08"),
  "C13": dict(
   technique="complete enumeration of the finite domains (52 cards, 13 ranks, 4 suits, all 1- and 2-char ASCII strings, all Unicode scalars, all range endpoint pairs) on the real conversions",
   text="Every value of every finite domain named by the property is run through the real conversion functions and compared with tables written from the property text.",
